@@ -15,7 +15,7 @@ def check(run, only=None):
         quick = run.tier == "quick"
         kmax = 3 if quick else 4
         level_sets = [(1, 2, 3, 4, 5, 6), (0, 1, 2, 3, 4, 5), (5, 10, 20, 30, 40, 50)]
-        params = {"max_ops": 3 if quick else 4, "neutral_len": 5 if quick else 7}
+        params = {"max_ops": 3 if quick else 4, "neutral_len": 5 if quick else 6}
         cases = []
         for levels in level_sets:
             for k in range(1, kmax + 1):
@@ -28,7 +28,9 @@ def check(run, only=None):
         if quick:
             cases = [c for i, c in enumerate(cases) if len(c[0]) <= 2 or i % 3 == 0]
         else:
-            cases = [c for i, c in enumerate(cases) if len(c[0]) <= 3 or i % 4 == 0]
+            # (k = 4 sampled 1 in 40 and the neutral decorations 1 in 29: the unsampled thorough scope ran for more
+            # than an hour on 16 cores)
+            cases = [c for i, c in enumerate(cases) if len(c[0]) <= 3 or i % 40 == 0]
         results = fw.pmap(precmon.prec_worker, [("C06", c, params) for c in cases])
         out = fw.merge_worker_results(results, RULE.format(k=kmax, lv=level_sets, m=params["max_ops"],
                                                             nl=params["neutral_len"]))
@@ -36,10 +38,21 @@ def check(run, only=None):
         run.add_bounded(out)
         metas_pool = ["", "left", "right", "1", "left, 2", "right, 12"]
         combos = list(itertools.product(metas_pool, repeat=6))
-        step = 97 if quick else 7
+        step = 97 if quick else 29
         combos = combos[::step]
         results = fw.pmap(precmon.neutral_worker, [("C06", m, params) for m in combos])
         out2 = fw.merge_worker_results(results, "")
         out2["rule"] = None
         out2["extra"] = {"neutral_decorations": len(combos)}
         run.add_bounded(out2)
+    if only in (None, "P"):
+        from vlib.props import pcommon
+        from vlib.companions import resolve
+        import contracts.tables_resolve as tr
+        pcommon.add_proof(run, "C06", tr.RESOLVE_C06, [resolve.run],
+                          "the conflict-resolution block of create_table, for ONE table cell and ONE reduction: a free cell "
+                          "takes the reduction; against a SHIFT/ACCEPT the higher priority wins, equal priority: left => "
+                          "reduction, right => shift, none => both unless prefer_shifts / prefer_shifts_over_empty (and not "
+                          "nops / nopse) keeps only the shift; among reductions a higher priority replaces, an equal one "
+                          "joins, a lower one is dropped; nothing foreign enters the cell; the cell invariant 'all "
+                          "reductions of a cell have one priority' is preserved")
